@@ -191,6 +191,18 @@ func (t *Task) IsClaimable() bool {
 	return !t.isLocked() && t.status == ACTIVE && t.state == sm.STANDBY
 }
 
+// claim locks a claimable task for the given role. Check and lock happen under the same
+// critical section, so of several concurrent claimants exactly one succeeds.
+func (t *Task) claim(parent parentRole) bool {
+	t.mu.Lock()
+	defer t.mu.Unlock()
+	if t.isLocked() || t.status != ACTIVE || t.state != sm.STANDBY {
+		return false
+	}
+	t.parent = parent
+	return true
+}
+
 func (t *Task) GetName() string {
 	t.mu.RLock()
 	defer t.mu.RUnlock()
